@@ -406,12 +406,13 @@ func (t *TriDense) Copy(a Matrix) (r, c int) {
 	case RawMatrixer:
 		amat := a.RawMatrix()
 		if t.isUpper() {
-			for i := 0; i < r; i++ {
+			for i := 0; i < min(r, c); i++ {
 				copy(t.mat.Data[i*t.mat.Stride+i:i*t.mat.Stride+c], amat.Data[i*amat.Stride+i:i*amat.Stride+c])
 			}
 		} else {
 			for i := 0; i < r; i++ {
-				copy(t.mat.Data[i*t.mat.Stride:i*t.mat.Stride+i+1], amat.Data[i*amat.Stride:i*amat.Stride+i+1])
+				k := min(i+1, c)
+				copy(t.mat.Data[i*t.mat.Stride:i*t.mat.Stride+k], amat.Data[i*amat.Stride:i*amat.Stride+k])
 			}
 		}
 	case RawTriangular:
@@ -428,7 +429,14 @@ func (t *TriDense) Copy(a Matrix) (r, c int) {
 				copy(t.mat.Data[i*t.mat.Stride:i*t.mat.Stride+i+1], amat.Data[i*amat.Stride:i*amat.Stride+i+1])
 			}
 		default:
+			// Only the diagonal of a lies in the receiver's triangle, the
+			// rest of that triangle is zero in a.
 			for i := 0; i < r; i++ {
+				if tIsUpper {
+					zero(t.mat.Data[i*t.mat.Stride+i : i*t.mat.Stride+c])
+				} else {
+					zero(t.mat.Data[i*t.mat.Stride : i*t.mat.Stride+i+1])
+				}
 				t.set(i, i, amat.Data[i*amat.Stride+i])
 			}
 		}
@@ -440,7 +448,7 @@ func (t *TriDense) Copy(a Matrix) (r, c int) {
 					t.set(i, j, a.At(i, j))
 				}
 			} else {
-				for j := 0; j <= i; j++ {
+				for j := 0; j <= i && j < c; j++ {
 					t.set(i, j, a.At(i, j))
 				}
 			}
